@@ -15,8 +15,8 @@ import (
 // C03 — plain JSON is a valid schema, preserved by Example() and the AST.
 
 var c03Scalars = []string{`0`, `-0`, `1`, `-1`, `0.5`, `-0.50`, `10.01`, `""`, `"a"`, `"\""`, `"\\"`, `"\/"`, `"\b\f\n\r\t"`, `" "`, `"@a"`, `"//"`, `"#"`, `true`, `false`, `null`,
-	`"A"`, `"\u0041"`, `"é"`, `"\u00e9"`, `"😀"`, `"\ud83d\ude00"`, `"/* x */"`, `"a: {b}"`, `"\u0001"`, `"\u007f"`, "\"\x7f\"", `"\udb40\udc01"`, `"\u000b\u0007"`, `"a\\u003cb"`, `"<&>"`}
-var c03Keys = []string{`"a"`, `""`, `"a\"b"`, `"a\\b"`, `"\n"`, `"é"`, `"A"`, `"@a"`, `" "`, `"//x"`, `"#"`, `"\u0041"`, `"\u00E9"`, `"a/b"`, `"\t"`, `"a\u0001b"`, `"\u007f"`, "\"\x7f\"", `"\udb40\udc01"`, `"\u000b"`, `"\u0000"`, `"e\u0301"`, `"K"`, `"\u212a"`, `"a "`, `"k\\u0026"`, `"<&>"`}
+	`"A"`, `"\u0041"`, `"é"`, `"\u00e9"`, `"😀"`, `"\ud83d\ude00"`, `"/* x */"`, `"a: {b}"`, `"\u0001"`, `"\u007f"`, "\"\x7f\"", `"\udb40\udc01"`, `"\u000b\u0007"`, `"a\\u003cb"`, `"<&>"`, `"x�y"`}
+var c03Keys = []string{`"a"`, `""`, `"a\"b"`, `"a\\b"`, `"\n"`, `"é"`, `"A"`, `"@a"`, `" "`, `"//x"`, `"#"`, `"\u0041"`, `"\u00E9"`, `"a/b"`, `"\t"`, `"a\u0001b"`, `"\u007f"`, "\"\x7f\"", `"\udb40\udc01"`, `"\u000b"`, `"\u0000"`, `"e\u0301"`, `"K"`, `"\u212a"`, `"a "`, `"k\\u0026"`, `"<&>"`, `"x�y"`}
 var c03ScalarsSmall = []string{`1`, `-0.50`, `"a"`, `"\""`, `null`, `"\u0041"`}
 var c03KeysSmall = []string{`"a"`, `"a\"b"`, `"\n"`, `"é"`, `"\u0001"`}
 
